@@ -134,6 +134,17 @@ func (s *Solver) Check(extra *Term) string {
 	for res == "" {
 		res = s.readLine()
 	}
+	if res == "unknown" && s.timeoutMs > 0 {
+		// the per-query limit is wall-clock time: on a loaded machine a query that normally takes a second can run
+		// into it. Ask once more with five times the limit before the answer counts as inconclusive.
+		s.send(fmt.Sprintf("(set-option :timeout %d)", s.timeoutMs*5))
+		s.send("(check-sat)")
+		res = s.readLine()
+		for res == "" {
+			res = s.readLine()
+		}
+		s.send(fmt.Sprintf("(set-option :timeout %d)", s.timeoutMs))
+	}
 	if extra != nil {
 		s.send("(pop 1)")
 	}
